@@ -1,3 +1,4 @@
+import Martian.Props.C01.Wire
 import Martian.Props.C01.Facts
 import Martian.Lemmas.Proxy
 import Martian.Lemmas.ProxyTrace
